@@ -225,14 +225,14 @@ func runC06(c *Ctx, idx int, o *Obs) {
 				if revert {
 					cl = append(cl, "-r")
 				}
-				res = runCLI(c, inStdin, append(cl, args...)...)
+				res, _ = runCLIOut(c, r, inStdin, append(cl, args...)...)
 			} else {
 				tf := tmpFile(c, "tips.txt", strings.Join(args, "\n")+"\n")
 				cl := append(append([]string{"prune"}, inArgs...), "-f", tf)
 				if revert {
 					cl = append(cl, "-r")
 				}
-				res = runCLI(c, inStdin, cl...)
+				res, _ = runCLIOut(c, r, inStdin, cl...)
 			}
 			what += " (input: " + inMode + ")"
 			o.Ev("cli_prune", 1)
@@ -292,7 +292,7 @@ func runC06(c *Ctx, idx int, o *Obs) {
 			if len(rest) == 0 && mode != "comp" {
 				continue
 			}
-			res := runCLI(c, "", cl...)
+			res, _ := runCLIOut(c, r, "", cl...)
 			o.Ev("cli_prune_multi", 1)
 			what := "gotree prune on a file of " + fmt.Sprint(len(lines)) + " trees with different tip sets (" + mode + ")"
 			inp2 := strings.Join(lines, "\n") + "\nkeep: " + strings.Join(core, ",")
